@@ -236,6 +236,33 @@ fn gen_integer_case(rng: &mut Rng) -> Case {
     let w = rng.int(20, 48) as i32;
     let h = rng.int(20, 48) as i32;
     let mut ops = Vec::new();
+    if rng.chance(0.15) {
+        // a closed polygon with dozens of sides, all of them inside the first dash (which is held back until the
+        // subpath closes): round caps and joins
+        let n = rng.int(28, 80) as usize;
+        let (cx, cy, r) = (w as f64 / 2., h as f64 / 2., w.min(h) as f64 / 2. - 4.);
+        for k in 0..n {
+            let a = std::f64::consts::TAU * k as f64 / n as f64;
+            let p = Point::new((cx + r * a.cos()) as f32, (cy + r * a.sin()) as f32);
+            ops.push(if k == 0 { PathOp::MoveTo(p) } else { PathOp::LineTo(p) });
+        }
+        ops.push(PathOp::Close);
+        let circ = (std::f64::consts::TAU * r) as f32;
+        let dash = if rng.chance(0.5) { vec![circ * 2., 10.] } else { vec![(circ * rng.range(0.5, 0.95) as f32).floor(), rng.int(3, 12) as f32] };
+        let style = StrokeStyle { width: rng.int(1, 4) as f32, cap: LineCap::Round, join: LineJoin::Round, miter_limit: 4., dash_array: dash, dash_offset: 0. };
+        return Case { w, h, path: Path { ops, winding: Winding::NonZero }, style, t: Transform::identity() };
+    }
+    if rng.chance(0.15) {
+        // out along a line and straight back along it: the dash that turns around there keeps its (round) join
+        let y = rng.int(9, h as i64 - 9) as f32;
+        let (x0, x1, x2) = (rng.int(4, 10) as f32, w as f32 - rng.int(9, 12) as f32, rng.int(10, w as i64 / 2) as f32);
+        ops.push(PathOp::MoveTo(Point::new(x0, y)));
+        ops.push(PathOp::LineTo(Point::new(x1, y)));
+        ops.push(PathOp::LineTo(Point::new(x2, y)));
+        // (wide enough for a pixel to lie well inside the half disc of the join alone)
+        let style = StrokeStyle { width: rng.int(9, 15) as f32, cap: LineCap::Round, join: LineJoin::Round, miter_limit: 4., dash_array: vec![(x1 - x0) + rng.int(3, 12) as f32, rng.int(3, 9) as f32], dash_offset: 0. };
+        return Case { w, h, path: Path { ops, winding: Winding::NonZero }, style, t: Transform::identity() };
+    }
     if rng.chance(0.6) {
         // a rectangle (closed or left open), possibly walked from another corner
         let (x0, y0) = (rng.int(2, 8) as f32, rng.int(2, 8) as f32);
